@@ -291,6 +291,29 @@ def replay(iset, memarch, nregions, inputs, ob):
                     valid.append(r.cls)
         lines.append('no opcode object was built (Undefined Instruction exception) for a word the table assigns to: %s' % valid)
         bad = bool(valid) and eo is None
+    elif kind == 'post.exc':
+        from spec import encodings as ENC
+        from spec import stepspec as SS
+        kname = type(eo).__name__
+        want = 'arm' if iset == 'arm' else ('t16' if iset == 'thumb16' else 't32')
+        instr = inputs['instr']
+        st0 = dict(init)
+        cfgs = registry.mods().configurations.configurations.configs
+        for k in MC.CFG_BOOL + list(MC.CFG_INT):
+            st0['cfg.' + k] = cfgs.get(k)
+        st0['oracle.excl_pass'] = False
+
+        class ZMem:
+            def read(self, *a):
+                return 0
+
+            def write(self, *a):
+                pass
+        took_exc = final['cpsr'] & 0x1F != init['cpsr'] & 0x1F or any('take_' in l for l in sc.log)
+        for r in [r for r in ENC.rows_for(kname) if r.iset == want and r.match(instr) and r.op is not None and r.opfields is None]:
+            _, s_unpred, s_undef = SS.spec_step(r, st0, instr, 'arm' if iset == 'arm' else 'thumb', 16 if iset == 'thumb16' else 32, mem=ZMem())
+            lines.append('architecture: exception expected=%s unpredictable=%s ; real mode %s -> %s' % (bool(s_undef), bool(s_unpred), hex(init['cpsr'] & 31), hex(final['cpsr'] & 31)))
+            bad = bad or (not s_undef and not s_unpred and (final['cpsr'] & 0x1F) in (0x1A, 0x1B) and (init['cpsr'] & 0x1F) != (final['cpsr'] & 0x1F))
     elif kind in ('decode.fields', 'decode.exec'):
         from spec import encodings as ENC
         from spec.cpu import Cpu
@@ -313,7 +336,7 @@ def replay(iset, memarch, nregions, inputs, ob):
             else:
                 from props import c03
                 bad = bad or type(eo).execute is not c03.klass(r.exec_class).execute
-    elif kind in ('decode.class', 'post', 'post.unpred'):
+    elif kind in ('decode.class', 'post', 'post.unpred', 'post.pc'):
         from spec import encodings as ENC
         from spec import stepspec as SS
         kname = type(eo).__name__
